@@ -65,9 +65,17 @@ def run(c):
     if th:
         runs += [(ra, "own", 4, 400), (rpc, "precond", 4, 200)]
     leak_obs = 0
-    for binary, mode, nt, chunk in runs:
+    import os
+
+    def rec(run):
+        binary, mode, nt, chunk = run
         t = c.record(binary, [mode], env={"OMP_NUM_THREADS": nt}, out=c.path("ad-%s-%d.ndjson" % (mode, nt)))
-        res = c.tlc_trace("C17Trace", t, label="%s@%dthreads" % (mode, nt), chunk=chunk)
+        if not os.path.exists(t) or os.path.getsize(t) == 0:
+            return run, None            # the recorder crashed before its first line: c.record registered the violation
+        return run, c.tlc_trace("C17Trace", t, label="%s@%dthreads" % (mode, nt), chunk=chunk)
+    for (binary, mode, nt, chunk), res in c.parallel([lambda r=r: rec(r) for r in runs], max_workers=4):
+        if res is None:
+            continue
         for ln in res["lines"][::max(1, len(res["lines"]) // 3)]:
             c.sample(ln, limit=9)
         for ln in res["lines"]:
